@@ -139,6 +139,16 @@ func playIso(sc Script) {
 	}
 	states := make([]*reqState, len(sc.Chains))
 	gs := map[string]*vsched.G{}
+	// ONE NewHandler middleware instance serves every request, as in a real server (a logger copy made per middleware
+	// instead of per request is shared by all of them); the rest of each request's chain hangs below a dispatcher
+	var innerMu sync.Mutex
+	inner := map[string]http.Handler{}
+	root := hlog.NewHandler(base)(gate(http.HandlerFunc(func(w http.ResponseWriter, r *http.Request) {
+		innerMu.Lock()
+		h := inner[r.Header.Get("X-Verif-Slot")]
+		innerMu.Unlock()
+		h.ServeHTTP(w, r)
+	})))
 	var names []string
 	for i, chain := range sc.Chains {
 		i, chain := i, chain
@@ -173,8 +183,12 @@ func playIso(sc Script) {
 				_, want := handlerOf(chain[k], fmt.Sprintf("k%d", k+1), r)
 				st.want = append(st.want, [2]string{fmt.Sprintf("k%d", k+1), want})
 			}
-			h = hlog.NewHandler(base)(gate(h))
-			h.ServeHTTP(httptest.NewRecorder(), r)
+			slot := fmt.Sprintf("%d", i+1)
+			r.Header.Set("X-Verif-Slot", slot)
+			innerMu.Lock()
+			inner[slot] = h
+			innerMu.Unlock()
+			root.ServeHTTP(httptest.NewRecorder(), r)
 		})
 	}
 	step := func(n string) bool {
